@@ -560,3 +560,30 @@ def check_c09(rep):
 
 
 REGISTRY.update({"C09": (check_c09, "model_checking")})
+
+
+def check_c11(rep):
+    wd = workdir("C11")
+    raw = hcv(["c11", rep.tier, str(rep.seed)], timeout=900).splitlines()
+    lines, index = arith.convert_lines(raw)
+    bad, st = arith.validate(lines, wd, timeout=3000, chunks=min(8, len(lines)))
+    evs = [json.loads(l) for l in raw]
+    rep.cov["states"] = st["distinct"]
+    rep.cov["transitions"] = st["generated"]
+    rep.cov["traces_validated_against_impl"] = len(lines)
+    rep.cov["evaluations"] = sum(len(e["enc"]) + len(e["dec"]) + len(e["pairs"]) + len(e["rot"]) + len(e["coef"]) for e in evs)
+    rep.cov["distinct_nontrivial"] = rep.cov["evaluations"]
+    rep.cov["parameter_sets"] = [[e["n"], e["t"]] for e in evs]
+    rep.cov["rule"] = ("one event per batching-compatible (N, t) with t < 2^15: all N unit vectors, all-(t-1), empty/short/random vectors encoded and decoded, arbitrary short "
+                       "polynomials decoded, sums and negacyclic products of encoder outputs, the automorphism for every step -(N/2-1)..N/2-1 (0 = column swap) applied with "
+                       "apply_galois_plain, coefficient encoding; TLC recomputes the slots as evaluations at psi^(3^i), psi^(-3^i) (psi = minimal root) and checks every item")
+    for b in bad:
+        d = index.get(tuple(b), {})
+        rep.violation({"n": d.get("n"), "t": d.get("t")}, {"event": {"n": d.get("n"), "t": d.get("t")}})
+    rep.samples += [{"n": e["n"], "t": e["t"], "enc0": e["enc"][1], "rot0": {k: e["rot"][0][k] for k in ("s", "elt")} if e["rot"] else None} for e in evs[:2]]
+    rep.assumptions += ["plain moduli above 2^15 (up to 60 bits) are not covered by this check: native TLC integers only",
+                        "the element associated with a step is read off create_galois_keys_from_steps"]
+    log("[C11] %d parameter sets, %d items, %d events rejected" % (len(evs), rep.cov["evaluations"], len(bad)))
+
+
+REGISTRY.update({"C11": (check_c11, "model_checking")})
